@@ -1,4 +1,6 @@
 """C18 - computations leave their arguments untouched and are repeatable."""
+import os
+
 import numpy as np
 import pandas as pd
 from hypothesis import strategies as st
@@ -12,7 +14,7 @@ import matplotlib.pyplot as plt
 from hydrodiy.stat import metrics, sutils, armodels, transform
 from hydrodiy.data import dutils, qualitycontrol, signatures
 from hydrodiy.gis.grid import (Grid, Catchment, accumulate, voronoi, slope,
-                               delineate_river)
+                               delineate_river, gsmooth)
 from hydrodiy.gis import gutils
 from hydrodiy.plot import putils, boxplot, violinplot
 
@@ -595,6 +597,77 @@ def _(d):
     return [_fd(d), inl], run
 
 
+def _fieldgaps(d, dtype=np.float64):
+    """6x6 field with missing cells and low values (to be gap filled)"""
+    g = Grid("z", 6, 6, dtype=dtype, nodata=-9999.)
+    v = np.resize(np.concatenate([d.obs, d.sim]), 36).reshape(6, 6).copy()
+    v = v.astype(dtype)
+    if np.dtype(dtype).kind == "f":
+        v[1, 2] = np.nan
+        v[4, 4] = np.nan
+    v[0, 0] = -60.
+    g.data = v
+    return g
+
+
+def _mask66():
+    m = Grid("m", 6, 6, dtype=np.int32)
+    mm = np.ones((6, 6), dtype=np.int32)
+    mm[:, 0] = 0
+    mm[5, 3] = 0
+    m.data = mm
+    return m
+
+
+@spec("grid.gsmooth", "gis")
+def _(d):
+    return [_fieldgaps(d)], \
+        lambda g: gsmooth(g, coastwin=3, sigma=0.3)
+
+
+@spec("grid.gsmooth_mask", "gis")
+def _(d):
+    return [_fieldgaps(d), _mask66()], \
+        lambda g, m: gsmooth(g, m, coastwin=3, sigma=0.3, minval=-55.)
+
+
+@spec("grid.gsmooth_float32", "gis")
+def _(d):
+    return [_fieldgaps(d, np.float32)], \
+        lambda g: gsmooth(g, coastwin=3, sigma=0.3, minval=-55.)
+
+
+@spec("grid.neighbours+same_geometry", "gis")
+def _(d):
+    return [_field(d), _fd(d)], \
+        lambda g, h: [g.neighbours(5), g.same_geometry(h),
+                      h.same_geometry(g)]
+
+
+@spec("grid.save+to_dict", "gis")
+def _(d):
+    import tempfile
+
+    def run(g):
+        with tempfile.TemporaryDirectory() as td:
+            f = os.path.join(td, "g.bil")
+            g.save(f)
+            raw = open(f, "rb").read()
+        dd = g.to_dict()
+        return [np.frombuffer(raw, dtype=np.uint8), repr(sorted(dd.items()))]
+    return [_field(d)], run
+
+
+@spec("grid.catchment_isin+extent", "gis")
+def _(d):
+    c = _catch(d)
+    cells = d.V(np.array([14., 3., 0.]), containers=ND,
+                dtypes=("int64", "int32"), intscale=False)
+    return [cells], lambda x: [[c.isin(int(k)) for k in x],
+                               [c.isin(int(k), filled=True) for k in x],
+                               list(c.extent())]
+
+
 @spec("grid.voronoi", "gis")
 def _(d):
     c = _catch(d)
@@ -752,6 +825,35 @@ def _(d):
         _with_ax(lambda ax, x: (putils.qqplot(ax, x), None)[1])
 
 
+@spec("putils.cov_ellipse", "plot")
+def _(d):
+    cov = np.cov(np.column_stack([d.obs, d.sim]).T) + np.eye(2)
+    mu = np.array([d.obs.mean(), d.sim.mean()])
+
+    def run(m, c):
+        el = putils.cov_ellipse(m, c)
+        return [el.width, el.height, el.angle]
+    return [d.V(mu, containers=ND, dtypes=FL, inject=False),
+            d.V(cov, containers=ND, dtypes=FL, inject=False)], run
+
+
+@spec("putils.bivarnplot", "plot")
+def _(d):
+    return [d.V(np.column_stack([d.obs, d.sim]), containers=ND,
+                dtypes=("float64",), inject=False)], \
+        _with_ax(lambda ax, xy: (putils.bivarnplot(ax, xy), None)[1])
+
+
+# (putils.scattercat calls matplotlib.cm.get_cmap, which the installed
+# matplotlib no longer has: it raises for every input here, no spec)
+
+
+@spec("grid.plot_values", "plot")
+def _(d):
+    return [_field(d)], \
+        _with_ax(lambda ax, g: (g.plot_values(ax), None)[1])
+
+
 @spec("boxplot.boxplot_stats", "plot")
 def _(d):
     return [d.V(d.obs, containers=("ndarray", "series"), dtypes=FL)], \
@@ -837,7 +939,9 @@ def oracle(case):
                         f"{type(e).__name__}: {e}")
     if errors[0] is not None:
         labels.append("raised-both-times")
+        labels.append(f"raised:{name}:{type(errors[0]).__name__}")
         return {"nt": False, "labels": labels}
+    labels.append(f"ran:{name}")
     if not same(results[0], results[1]):
         raise Violation(f"{name}: two identical calls"
                         f"{' with the same seed' if seeded else ''} return "
